@@ -363,7 +363,7 @@ class Listing:
         prec = classify(part) if part else None
         frec = self.recs[nl] if nl < len(self.recs) else ('eof', None)
         obs = dict(off=off, pos=self.sig_before[nl], nl=nl, part=prec, full=frec, cut=cut_class(frec, prec),
-                   outcome=None, exc=None, where=None, keys=[], eds=[], times=[], diff='', nparse=0)
+                   outcome=None, exc=None, where=None, keys=[], eds=[], times=[], diff='', nparse=0, after=list(_HISTORY))
         outcome, parser, exc, where = open_listing(path)
         obs['outcome'], obs['exc'], obs['where'] = outcome, exc, where
         if exc:
@@ -384,7 +384,9 @@ class Listing:
         # which editions are parsed for real: all when there is no memo (rng None); otherwise those whose scanned
         # block / times / partial flag changed since they were last parsed, plus (seeded sample) the last and a random one
         force = set()
-        if rng is None:
+        if rng is None and only == 'ends':          # the first and the last stored edition
+            force = set(obs['keys'][:1] + obs['keys'][-1:])
+        elif rng is None:
             force = set(only) if only is not None else set(obs['keys'])
         elif obs['keys'] and rng.random() < rate:
             force = {obs['keys'][-1], rng.choice(obs['keys'])}
@@ -885,9 +887,324 @@ def synth_bytes(rel):
     return b''.join(out + tail)
 
 
+# ----------------------------------------------------------------------------------------------
+# listings written from the GRAMMAR (grammar.py / transform.py / common.py), for the layouts no shipped listing has:
+# nu and (Z,A) spectra, every order of the nucleus / temperature / composition / concentration / reaction details (a
+# parse action rebuilds a shared Forward from the first one), the other response characteristics, every scoring zone,
+# correspondence table, MED file, best result, non-converged results, kij matrices of other dimensions (parse actions
+# size shared Forwards), lists of fissile volumes, parna likelihood, keff warnings, scores by perturbation index,
+# reaction-rate-ratio sensitivities, normalised IFP criticality editions with other table formats, perturbation order,
+# contributing particles, packet-length warning, the other introduction lines, uncertainty spectra per time step.
+# Name (replayable): gram|<layout>.  Two editions (batch 10 and 20) with different numbers, mono-processor job.
+# They are (1) cut like the other listings and (2) parsed complete, in turn, between the parses of the prefixes of
+# EVERY listing (history clause: "whatever was parsed earlier in the same process").
+GRAM = 'gram|'
+_S57, _S78 = '*' * 57 + '\n', '*' * 78 + '\n'
+
+
+def _f(x):
+    return '%e' % x
+
+
+def _resp(func, carac=(), name='resp', score=None, split='ENERGY DECOUPAGE NAME : DEC_SPECTRE', particle='NEUTRON'):
+    """introduction of a response (respdesc + respcarac lines between two lines of stars)"""
+    out = _S78 + 'RESPONSE FUNCTION : %s\n' % func
+    if name is not None:
+        out += 'RESPONSE NAME : %s\n' % name
+    if score is not None:
+        out += 'SCORE NAME : %s\n' % score
+    if split:
+        out += split + '\n'
+    out += '\n' + ''.join(c + '\n' for c in carac)
+    if particle:
+        out += '\n PARTICULE : %s \n' % particle
+    return out + _S78 + '\n'
+
+
+_ZONE_VOL = '\t Volume \t num of volume : 2\n\t Volume in cm3: 1.000000e+00\n'
+
+
+def _desc(zone=_ZONE_VOL, mode='SCORE_TRACK'):
+    return '\t scoring mode : %s\n\t scoring zone : %s\n\n' % (mode, zone)
+
+
+def _integ(e, k=1.0, disc=True, title='\t ENERGY INTEGRATED RESULTS\n\n'):
+    return (title + ('\t number of first discarded batches : 0\n\n' if disc else '')
+            + 'number of batches used: %d\t%s\t%s\n\n\n' % (10 * e, _f(4.5 * k * e), _f(0.5 / e)))
+
+
+def _spectrum(e, k=1.0, groups=2):
+    rows = [(20., 15., 0., 0., 0.), (15., 10., 2.5 * k * e, 1. / e, 6.165759 * k * e),
+            (10., 5., 1.5 * k * e, 2. / e, 2.164043 * k * e), (5., 1e-11, .5 * k * e, 3. / e, 0.018658 * k * e)][-groups:]
+    return ('\t SPECTRUM RESULTS\n\t number of first discarded batches : 0\n\n'
+            '\t group\t\t\t score\t\t sigma_% \t score/lethargy\n'
+            'Units:\t MeV\t\t\t neut.cm.s^-1\t %\t\t neut.cm.s^-1\n\n'
+            + ''.join('%s - %s\t%s\t%s\t%s\n' % tuple(_f(x) for x in r) for r in rows) + '\n' + _integ(e, k))
+
+
+def _nu_spectrum(e):
+    rows = [(0., 1., .1 * e, 5. / e), (1., 2., .3 * e, 4. / e), (2., 3., .4 * e, 3. / e), (3., 4., .2 * e, 6. / e)]
+    return ('\t NU RESULTS\n\t number of first discarded batches : 0\n\n\t range\t\t\t score\t\t sigma_%\n'
+            'Units:\t nu\t\t\t neut.s^-1\t %\n\n'
+            + ''.join('%s - %s\t%s\t%s\n' % tuple(_f(x) for x in r) for r in rows) + '\n' + _integ(e, .2))
+
+
+def _za_spectrum(e):
+    rows = [(z, a, .01 * (z + a) * e, 7. / e) for z in (38, 39) for a in (94, 95, 96)]
+    return ('\t ZA RESULTS\n\t number of first discarded batches : 0\n\n\t (Z,A)\t\t\t score\t\t sigma_%\n'
+            'Units:\t \t\t\t neut.s^-1\t %\n\n'
+            + ''.join('(%d,%d)\t%s\t%s\n' % (z, a, _f(s), _f(g)) for z, a, s, g in rows) + '\n' + _integ(e, .3))
+
+
+def _edition(e, body, intro='', before='', simtime=None):
+    n = 10 * e
+    return (' batch number : %d\n\n\n' % n + _S57 + '\n RESULTS ARE GIVEN FOR SOURCE INTENSITY : 1.000000e+00\n' + _S57
+            + '\n' + intro + '\n Edition after batch number : %d\n\n\n\n' % n + body + before
+            + ' simulation time (s) : %d\n\n\n' % (simtime if simtime is not None else 12 * e + 1))
+
+
+_HEADER = ' data reading time (s): 0\n\n\tBATCH\t20\n\tSIZE\t1000\n\n initialization time (s): 0\n\n'
+_FOOTER = (' Type and parameters of random generator at the end of simulation: \n'
+           '\t DRAND48_RANDOM 13531 45249 20024  COUNTER\t2062560\n\n\n' + '=' * 69 + '\n\tNORMAL COMPLETION\n' + '=' * 69 + '\n')
+
+
+def _compos(e):
+    """characteristics of the response: every first key of the stateful `_next_compos` and the other respcarac"""
+    details = {'reaction on nucleus': 'U235', 'temperature': '300', 'composition': 'COMBUSTIBLE',
+               'concentration': '7.686400e-05', 'reaction consists in': 'codes : 18+102'}
+    keys = list(details)
+    out = ''
+    for i, first in enumerate(keys):
+        order = [first] + [k for k in keys if k != first]
+        carac = ['\t %s%s %s' % (k, '' if k.startswith('reaction consists') else ' :', details[k]) for k in order]
+        if i % 2:       # two nuclei
+            carac += ['\t %s%s %s' % (k, '' if k.startswith('reaction consists') else ' :',
+                                      {'reaction on nucleus': 'U238', 'reaction consists in': 'total fission'}.get(k, details[k]))
+                      for k in order]
+        out += _resp('REACTION', carac, name='reac_%d' % i) + _desc() + _spectrum(e, 1 + i)
+    others = [['RESPONSE FILTERED BY 2 COMPOSITIONS : COMBUSTIBLE EAU', 'INCIDENT PARTICULE : NEUTRON',
+               'NOISE EQUATION : REAL PART', 'DPA TYPE: NRT-DPA, arc', 'REQUIRED ARGUMENT(S): 2', 'MODE : KERMA',
+               'INDUCED BY INTERACTION : 102 18', 'SPECTRUM : WATT', 'Score filtered by volume : 1 2 With ALL_COLLISIONS'],
+              ['NOT INDUCED BY INTERACTION : 2', 'Score filtered by volume : 3', 'neutron (prompt) FXPT CONTRIBUTION']]
+    for i, carac in enumerate(others):
+        out += _resp('FLUX', carac, name='carac_%d' % i) + _desc() + _spectrum(e, 10 + i)
+    return out
+
+
+def _mesh(e):
+    cells = [(i, j, 0) for i in range(2) for j in range(2)]
+    rng = lambda lo, hi: 'Energy range (in MeV): %s - %s\n' % (_f(lo), _f(hi))
+    vals = lambda k: ''.join('\t (%d,%d,%d)\t %s\t%s\n' % (c + (_f(k * e * (1 + n)), _f(1. / e))) for n, c in enumerate(cells))
+    return ('\n' + rng(20., 1.) + vals(1.) + '\n' + rng(1., 1e-11) + vals(2.) + '\n'
+            + 'ENERGY INTEGRATED RESULTS :\n' + vals(3.) + '\n'
+            + '\t %s : out_flux.med\n\t MED mesh id flux_mesh\n\n' % ('Creating MED output file', '# Creating output file')[e % 2])
+
+
+def _zones(e):
+    """every scoring zone of the grammar, one score each, and the optional blocks of a score"""
+    zones = ['\t Results cumulated on all sources\n',
+             '\t Volume \t num of volume : FUEL_PIN\n\t Volume in cm3: 2.000000e+00\n'
+             '\t The volume has been provided by the user (the user requested a score per unit volume)\n',
+             '\t Volume \t num of volume : 3\n\t Volume in 1.000000e+00 cm3: 6.000000e+00\n'
+             '\t The result is integrated in volume\n',
+             '\t Volume \t num of volume : 4\n\t Volume in cm3: 1.000000e+00\n'
+             '\t The volume has been calculated by Tripoli-4 or provided by the user\n',
+             '\t Frontier \t volumes : 2,1\n\t Surface in cm2: 4.000000e+00\n'
+             '\t The surface area has been provided by the user (the user requested a score per unit area)\n',
+             '\t Frontier Sum \t num of frontiers : (2,1)+(3,1)\t Total surface in cm2: 8.000000e+00\n',
+             '\t Volume Sum \t num of volumes : \n\t\t1+2+3\t Total volume in cm3: 3.000000e+00\n',
+             '\t Cells (numvol,depth,imaille,jmaille,kmaille...)  (2,1,0,0,0)+(2,2,1,0,0,0,1,0)\n',
+             '\t Maille \t num of volume : 2 depth of lattice : 1 num of cell : (0,0,0) (1,0,0)\n',
+             '\t Point : -5.000000e+01,0.000000e+00 , 0.000000e+00\n', '\n']
+    out = _resp('FLUX', name='zones')
+    for i, z in enumerate(zones):
+        out += _desc(z, ('SCORE_TRACK', 'SCORE_SURF', 'SCORE_COLL')[i % 3]) + _spectrum(e, 1 + i)
+    out += ('Correspondence table between volumes ids and names :\n\tVolume : 1 is : FUEL_PIN\n\tVolume : 2 is : WATER\n\n\n'
+            + _desc() + _spectrum(e, 20)
+            + '\t best results are obtained with discarding 3 batches\n\t -------------------- \n'
+              'number of batches used: %d\t%s\t%s\n\n\n' % (10 * e - 3, _f(4.4 * e), _f(.4 / e)))
+    out += (_resp('FLUX', name='mesh_cellvol')
+            + _desc('\t Volume in cm3: 4.000000e+00\n\t Cell volume in cm3: 1.000000e+00\n\t Results on a mesh: \n'
+                    '\t Cell   \t  tally   \t  sigma (percent)\n') + _mesh(e))
+    out += (_resp('FLUX', name='unconverged') + _desc() + _spectrum(e, 30).split('\t ENERGY INTEGRATED')[0]
+            + '\t ENERGY INTEGRATED RESULTS\n\n\t number of first discarded batches : 0\n\n NOT YET CONVERGED\n\n\n')
+    return out
+
+
+def _matrix(title, ids, k):
+    line = '\t\t\t' + '-' * 40 + '\n'
+    return ('\t    %s\n\n\t\t\t' % title + ''.join(' %s\t' % i for i in ids) + '\n' + line
+            + ''.join('\t %s\t' % i + ''.join('| %s\t' % _f(k * (1 + r + c)) for c in range(len(ids))) + '|\n' + line
+                      for r, i in enumerate(ids)) + '\n\n')
+
+
+def _best(estim, e, k, extra='', disc=True):
+    return ('\t  %s ESTIMATOR\n\t -------------------- \n\n\n' % estim
+            + (' \t best results are obtained with discarding %d batches\n\n' % e if disc else '')
+            + '\t number of batch used: %d\t keff = %s\t sigma = %s\t sigma%% = %s\n\n' % (10 * e - e, _f(k), _f(k / 1e3), _f(.1))
+            + extra + '\n')
+
+
+def _kij(e, dim=3, printed=True):
+    """criticality results: kij matrix (dimension set by a parse action), keff as a response, the "automatic" keff
+    block with the parna likelihood, the equivalent keff and a kij estimator preceded by the list of fissile volumes"""
+    used = 'number of batches used:\t%d\n\n' % (10 * e)
+    head = '\n\tENERGY INTEGRATED RESULTS\n\n' + used
+    rows = lambda k: ''.join('\t'.join(_f(k * e * (1 + r + c)) for c in range(dim)) + '\n' for r in range(dim))
+    out = (_resp('KIJ_MATRIX', name=None, split=None, particle=None) + head
+           + '\n\t left_eigenvalues called\n\t    kij-keff = %s\n\n\t    dominant ratio = %s\n\n\n' % (_f(.9 + .01 * e), _f(.25))
+           + 'eigenvalues (re, im)\n\n' + ''.join('%s\t%s\n' % (_f(.9 / (1 + r)), _f(0.)) for r in range(dim)) + '\n\n')
+    if printed:
+        out += 'eigenvectors\n\n' + rows(.1) + '\nKIJ_MATRIX : \n\n' + rows(.01) + '\n'
+    else:
+        out += ('KIJ eigenvectors not printed, increase maximum dump size if needed\n\n'
+                'KIJ_MATRIX : \n\nKIJ matrix not printed, increase maximum dump size if needed\n\n')
+    out += (_resp('KIJ_SOURCES', name=None, split=None, particle=None) + head + 'SOURCES VECTOR : \n\n'
+            'Sources are ordered following GEOMCOMP:\n\n' + ''.join(_f(.1 * (1 + r)) + '\n' for r in range(dim)) + '\n')
+    out += (_resp('KEFFS', name=None, split=None, particle=None) + head
+            + ' KSTEP  %s\t%s\n KCOLL  %s\t%s\n KTRACK %s\t%s\n\n' % tuple(_f(x) for x in (.99, .14, .995, .12, .996, .11))
+            + '  \t  estimators  \t\t\t  correlations   \t  combined values  \t  combined sigma%\n'
+              '  \t  KSTEP <-> KCOLL  \t    \t  8.220342e-01  \t  9.957839e-01  \t  1.250667e-01\n'
+              '  \t  KSTEP <-> KTRACK  \t    \t  7.417923e-01  \t  9.959473e-01  \t  1.162897e-01\n'
+              '  \t  KCOLL <-> KTRACK  \t    \t  8.338559e-01  \t  9.959687e-01  \t  1.149536e-01\n\n'
+            + ('  \t  full combined estimator  9.959532e-01\t1.150056e-01\n\n\n\n' if printed else
+               '  \t  full combined estimator  Not converged (invalid keff domain)\n\n\n\n'))
+    if not printed:
+        out += (_resp('KEFFS', name=None, split=None, particle=None) + head + ' Warning\n   One of the Keffectives is null and should not be\n'
+                '   Combined Keffectives will not be edited\n\n\n'
+                + _resp('KEFFS', name=None, split=None, particle=None) + head + ' NOT YET CONVERGED\n\n\n'
+                + ' WARNING\n -------\n In FIXED_SOURCES_CRITICITY mode, the keff result\n'
+                  " is actually an overall multiplication factor (cf User's Guide)\n\n")
+    parna = ("\t parna likelihood confidence interval (on the mean of M = M' + 1)\n"
+             '\t mean = 9.9e-01\t lambda = 1.2e+00\t sigma = 1.3e-03\t sigma% = 1.3e-01\n'
+             + ''.join('\t proba : %s\t lower = 9.8e-01\t upper = 1.0e+00\t length = 2.0e-02\n'
+                       '\t inversion of the CDF converged after : %d iterations\n' % (p, 10 + e) for p in ('0.9973', '0.99')) + '\n')
+    out += (_best('KSTEP', e, .99, '\t Equivalent Keff: 9.9e-01\n\n') + _best('KCOLL', e, .995, parna)
+            + _best('KTRACK', e, .996, disc=False)
+            + '\t  MACRO KCOLL ESTIMATOR\n\t ---------------------------- \n\n\n\t Not converged\n\n\n')
+    ids = [str(i + 1) for i in range(dim)] if printed else ['(%d,0,0)' % i for i in range(dim)]
+    out += ('\t  KIJ ESTIMATOR\n\t  -------------\n\n'
+            + ('\t    number of fissile volumes : %d\n\t    list of fissile volume numbers :  %s\n\n'
+               % (dim, ' '.join(str(i + 1) for i in range(dim))) if printed else '')
+            + '\t    number of last batches kept : %d\n\n\t    kij-keff = %s\n\n' % (10 * e, _f(.9 + .01 * e))
+            + '\t    EIGENVECTOR :      index      source rate\n\n'
+            + ''.join('\t\t\t\t %d \t %s\n\n' % (i + 1, _f(1. / dim)) for i in range(dim)) + '\n'
+            + _matrix('K-IJ MATRIX :', ids, .01 * e) + _matrix('STANDARD DEVIATION MATRIX :', ids, .001 * e)
+            + _matrix('SENSIBILITY MATRIX :', ids, .1 * e))
+    return out
+
+
+def _adjoint(e):
+    """adjoint-weighted results: scores by perturbation index with units, sensitivities after a reaction-rate ratio and
+    by incident energy, IFP adjoint criticality editions (normalised; the table format is set by a parse action)"""
+    used = 'number of batches used:\t%d\n\n' % (10 * e)
+    out = (_resp('IFP ADJOINT WEIGHTED PERTURBATION', name=None, split=None, particle=None) + '\n\tENERGY INTEGRATED RESULTS\n\n'
+           + used + 'Scores are ordered by perturbation index:\n\n'
+           + ''.join(' i = %d : %s %s\n' % (i, _f(.001 * i * e), _f(3. / e)) for i in (1, 2, 3)) + '\nUnits:\t s^-1\t %\n\n')
+    out += (_resp('IFP ADJOINT WEIGHTED ROSSI ALPHA', name=None, split=None, particle=None) + '\n\tENERGY INTEGRATED RESULTS\n\n'
+            + 'number of batches used: %d\t%s\t%s\n\nUnits:\t %%\n\n' % (10 * e, _f(-1.5 * e), _f(2. / e)))
+    table = lambda k: (' E min          E max              S(E)         sigma\n\n'
+                       + ''.join(' %s  %s    %s  %s\n' % (_f(lo), _f(hi), _f(-k * e * hi), _f(1. / e))
+                                 for hi, lo in ((20., 1.), (1., 1e-11))) + '\n')
+    out += (_resp('IFP ADJOINT WEIGHTED REACTION RATE RATIO SENSITIVITIES', name=None, split=None, particle=None) + used
+            + 'Scores are ordered by type (SECTION, FISSION NU, FISSION CHI, SCATTERING KERNEL) and index:\n\n'
+            + ' REACTION_RATE_RATIO : %s %s\n\n' % (_f(1.2 * e), _f(.5 / e))
+            + 'CROSS SECTION SENSITIVITY :\n\n i = 1; NUCLEUS : U238, TYPE : SECTION CODE 52\n\n' + table(1e-4)
+            + ' Energy integrated S           %s  %s\n\n' % (_f(-2e-3 * e), _f(.5 / e))
+            + 'FISSION CHI SENSITIVITY :\n\n i = 1; NUCLEUS : U235, TYPE : FISSION_CHI\n\n'
+            + ''.join(' Incident energy interval in MeV: %s %s\n\n' % (_f(lo), _f(hi)) + table(k)
+                      for k, (hi, lo) in ((1e-3, (20., 1.)), (2e-3, (1., 1e-11))))
+            + ' Energy integrated S           %s  %s\n\n' % (_f(-3e-3 * e), _f(.6 / e)) + 'Units:\t %\n\n')
+    star = _S78 + '\n'
+    intro = lambda name, length, norm: ('IFP_ADJOINT_FLUX\n\nSCORE NAME: %s\n\nIFP CYCLE LENGTH = %d\n\n' % (name, length)
+                                        + ('RESULTS ARE NORMALIZED\n\n' if norm else '') + star)
+    cols = '   score [a.u.]       sigma_%\n\n'
+    out += (star + 'IFP_ADJOINT_CRITICALITY EDITION\n\n' + star + intro('adj_x_e', 2, True)
+            + '            X (min | max)               E (min | max)' + cols
+            + ''.join(' %s  %s  %s  %s  %s  %s\n' % tuple(_f(v) for v in (x0, x1, e0, e1, (1 + n) * .1 * e, 2. / e))
+                      for n, (x0, x1, e0, e1) in enumerate((x0, x1, e0, e1) for e0, e1 in ((1e-11, 1.), (1., 20.))
+                                                           for x0, x1 in ((-5., 0.), (0., 5.), (5., 10.)))) + '\n' + star
+            + intro('adj_vol', 5, False) + '  Vol                  E (min | max)' + cols
+            + ''.join('   %d  %s  %s  %s  %s\n' % (v, _f(e0), _f(e1), _f(.01 * v * e), _f(3. / e))
+                      for e0, e1 in ((1e-11, 1.), (1., 20.)) for v in (10, 11)) + '\n' + star)
+    return out
+
+
+def _uncert(e, k=1.0):
+    return ('\t UNCERTAINTY RESULTS\n\t number of first discarded batches : 0\n\n'
+            '\t\t group (Mev) \t\t sigma2(means)   mean(sigma_n2)  sigma(sigma_n2)  fisher test\n\t ' + '-' * 80 + '\n'
+            + ''.join('\t%s - %s\t%s\t%s\t%s\t%s\n' % tuple(_f(x) for x in (hi, lo, 1e-7 * k * e, 2e-8 * k, 9e-9 * k, 2e2 / e))
+                      for hi, lo in ((10., 5.), (5., 1e-11))) + '\n\n')
+
+
+def _runinfo(e):
+    """what surrounds the responses: perturbation editions (with order), contributing particles; spectra and
+    uncertainty spectra per time step.  (the introduction and the end of the edition are given to _edition)"""
+    step = lambda t: ('\t TIME STEP NUMBER : %d\n\t ------------------------------------\n'
+                      '\t\t time min. = %s\n\t\t time max. = %s\n\n' % (t, _f(3. * t), _f(3. * t + 3.)))
+    out = _resp('FLUX', name='per_time_step') + _desc() + ''.join(step(t) + _spectrum(e, 1 + t) for t in (0, 1))
+    out += ''.join(step(t) + _uncert(e, 1 + t) for t in (0, 1))
+    for rank, order in ((0, ''), (1, ' Order: 2\n\n')):
+        out += (' ================== Perturbation result edition ====================== \n\n Perturbation rank = %d\n\n'
+                ' Method : CORRELATED SAMPLING  \n\n%s Perturbation de type DENSITY\n Composition : COMBUSTIBLE\n\n\n' % (rank, order)
+                + _resp('FLUX', name='perturbed') + _desc() + _spectrum(e, 5 + rank) + _uncert(e, 5 + rank)
+                + '\t UNCERTAINTY ON ENERGY INTEGRATED RESULTS\n\n\t number of first discarded batches : 0\n\n'
+                  '\t number of batch : %d\t%s\t%s\t%s\t%s\n\n\n' % ((10 * e,) + tuple(_f(x * e) for x in (6e-6, 5e-7, 4e-7, 1e2))))
+    out += (' NUMBER OF CONTRIBUTING PARTICLES\n ------------------------------------\n'
+            + ''.join(' FILE %d : %d particles\n' % (i, 100 * e + i) for i in (0, 1)) + ' --- end of CONTRIBUTING PARTICLES ---\n\n')
+    return out
+
+
+_INTRO = [' Mean weight leakage = 7.130508e+02\t sigma = 1.003534e+01\t sigma% = 1.407380e+00\n\n'
+          ' Mean weight leakage inside = 1.200000e+01\t sigma = 1.000000e+00\t sigma% = 8.333333e+00\n\n'
+          ' Mean weight of restarted particles : 1.000000e+00\n\n',
+          ' Mean weight leakage : unknown\n\n Mean weight leakage inside : unknown\n\n']
+_PACKET = ' * packet length is 20 (check documentation for conventions about discard and batches)\n\n'
+
+
+def _unconverged(e):
+    """results that are not converged after the first batches of a criticality job"""
+    head = '\n\tENERGY INTEGRATED RESULTS\n\n'
+    return (_resp('KEFFS', name=None, split=None, particle=None) + head + 'number of batches used:\t%d\n\n' % (10 * e)
+            + ' KSTEP  %s\t%s\n KCOLL  %s\t%s\n KTRACK %s\t%s\n\n' % tuple(_f(x) for x in (.99, .14, .995, .12, .996, .11))
+            + '  \t  estimators  \t\t\t  correlations   \t  combined values  \t  combined sigma%\n'
+              '  \t  KSTEP <-> KCOLL  \t    \t  8.220342e-01  \t  9.957839e-01  \t  1.250667e-01\n'
+              '  \t  KSTEP <-> KTRACK  \t    \t  Not converged  \t  Not converged  \t  Not converged\n'
+              '  \t  KCOLL <-> KTRACK  \t    \t  8.338559e-01  \t  9.959687e-01  \t  1.149536e-01\n\n'
+              '  \t  full combined estimator  Not converged (invalid keff domain)\n\n\n\n'
+            + _resp('TOTAL FISSION RATE', name=None, split=None, particle=None) + head + ' NOT YET CONVERGED\n\n\n')
+
+
+LAYOUTS = {
+    'nu': lambda e: _resp('REACTION', name='nu_fission', split='DECOUPAGE NAME : DEC_NU') + _desc() + _nu_spectrum(e),
+    'za': lambda e: _resp('REACTION', name='za_fission', split=None) + _desc() + _za_spectrum(e),
+    'compos': _compos,
+    'zones': _zones,
+    'unconverged': _unconverged,
+    'runinfo': _runinfo,
+    'adjoint': _adjoint,
+    'kij3': _kij,
+    'kij2-not-printed': lambda e: _kij(e, 2, False),
+}
+
+
+def gram_names():
+    return [GRAM + k for k in LAYOUTS]
+
+
+def gram_bytes(rel):
+    layout = rel[len(GRAM):]
+    body = LAYOUTS[layout]
+    if layout == 'runinfo':
+        return (_HEADER + ''.join(_edition(e, body(e), _INTRO[e - 1], _PACKET) for e in (1, 2)) + _FOOTER).encode()
+    return (_HEADER + _edition(1, body(1)) + _edition(2, body(2)) + _FOOTER).encode()
+
+
 def listing_data(rel):
     if rel.startswith(SYNTH):
         return synth_bytes(rel)
+    if rel.startswith(GRAM):
+        return gram_bytes(rel)
     with open(os.path.join(core.REPO, rel), 'rb') as f:
         return f.read()
 
@@ -896,7 +1213,7 @@ def _listing(rel):
     if rel not in _LISTINGS:
         data = listing_data(rel)
         path = os.path.join(core.REPO, rel)
-        if rel.startswith(SYNTH):       # the complete synthetic listing, in the scratch directory of this process
+        if rel.startswith((SYNTH, GRAM)):       # the complete synthetic listing, in the scratch directory of this process
             path = os.path.join(os.path.dirname(_tmp_path()), 'synth-%s.res' % hashlib.sha1(rel.encode()).hexdigest()[:12])
             with open(path, 'wb') as f:
                 f.write(data)
@@ -904,9 +1221,37 @@ def _listing(rel):
     return _LISTINGS[rel]
 
 
+_HISTORY = []          # the grammar-written listings parsed complete in THIS process so far, by last occurrence
+_PRIME_NEXT = [0]
+
+
+def _prime(name=None):
+    """Parse one grammar-written listing complete in this process (the next one in turn when no name is given).
+    -> (None | (key, what, case), number of Parser calls): a complete listing gives what it gave at its first parse in
+    this process."""
+    if name is None:
+        names = gram_names()
+        name = names[_PRIME_NEXT[0] % len(names)]
+        _PRIME_NEXT[0] += 1
+    lst = _listing(name)
+    obs = lst.complete_obs()            # (its `after`: the history before this parse)
+    if name in _HISTORY:
+        _HISTORY.remove(name)
+    _HISTORY.append(name)
+    _PARSE_MEMO.clear()
+    fnd = finding_of(obs)
+    if fnd:
+        fnd = (fnd[0], fnd[1] + ' [complete %s]' % name, dict(source='file', file=name, offset=len(lst.data), after=obs['after']))
+    return fnd, 1 + obs['nparse']
+
+
 def _work_offsets(task):
-    """task = (relative path, offsets (ascending), seed, rate, history every) -> grouped observations."""
-    rel, offsets, seed, rate, every, want_ref = task
+    """task = (relative path, offsets (ascending), seed, rate, history every, want_ref[, prime every]) -> grouped
+    observations.  prime every: a grammar-written listing (each in turn) is parsed complete every so many prefixes, and
+    the prefix is parsed again after it; the job that makes the reference of a listing also parses a prefix of it
+    after EACH grammar-written listing."""
+    rel, offsets, seed, rate, every, want_ref = task[:6]
+    prime = task[6] if len(task) > 6 else 0
     rng = random.Random(seed)
     lst = _listing(rel)
     lst.memo = {}
@@ -916,8 +1261,30 @@ def _work_offsets(task):
     groups = {}
     nparse = 0
     history = []
+    primed = []
+
+    def note(obs):
+        key = obs_key(obs) + '|' + str(obs['exc']) + '|' + obs['diff'].split(': ')[0] + '|' + obs['cut']
+        g = groups.get(key)
+        if g is None:
+            groups[key] = dict(obs=obs, count=1)
+        else:
+            g['count'] += 1
+        return 1 + obs['nparse']
+
+    def prime_and_parse(off, name=None):
+        fnd, n = _prime(name)
+        if fnd and len(primed) < 20:
+            primed.append(fnd)
+        return n + note(lst.observe(tmp, off, rng=None, ref=lst.ref_edition, only='ends'))
     with open(tmp, 'wb') as f:
         written = 0
+        if prime and want_ref and len(lst.data) > 1:
+            written = len(lst.data) - 1             # (the last line is not terminated)
+            f.write(lst.data[:written])
+            f.flush()
+            for name in gram_names():
+                nparse += prime_and_parse(written, name)
         for count, off in enumerate(offsets):
             if off < written:
                 f.seek(0)
@@ -927,14 +1294,9 @@ def _work_offsets(task):
             f.write(lst.data[written:off])
             f.flush()
             written = off
-            obs = lst.observe(tmp, off, rng=rng, rate=rate, ref=lst.ref_edition)
-            nparse += 1 + obs['nparse']
-            key = obs_key(obs) + '|' + str(obs['exc']) + '|' + obs['diff'].split(': ')[0] + '|' + obs['cut']
-            g = groups.get(key)
-            if g is None:
-                groups[key] = dict(obs=obs, count=1)
-            else:
-                g['count'] += 1
+            nparse += note(lst.observe(tmp, off, rng=rng, rate=rate, ref=lst.ref_edition))
+            if prime and count % prime == prime - 1:
+                nparse += prime_and_parse(off)
             if every and count % every == every - 1:
                 # history clause: a complete listing parsed in between gives what it gave at the start
                 again = lst.complete_obs(rng)
@@ -943,8 +1305,8 @@ def _work_offsets(task):
                     first_obs = lst.complete_obs()
                 same_scan = [again[k] for k in ('outcome', 'keys', 'times')] == [first_obs[k] for k in ('outcome', 'keys', 'times')]
                 if not same_scan or again['diff'] or again['exc']:
-                    history.append(dict(after=off, got=again['outcome'], diff=again['diff'], exc=again['exc']))
-    return dict(rel=rel, groups=list(groups.values()), n=len(offsets), nparse=nparse, history=history,
+                    history.append(dict(after=off, got=again['outcome'], diff=again['diff'], exc=again['exc'], primed=again['after']))
+    return dict(rel=rel, groups=list(groups.values()), n=len(offsets), nparse=nparse, history=history, primed=primed,
                 lines=lst.abstract_lines() if want_ref else None, ref_obs=ref_obs)
 
 
@@ -955,13 +1317,18 @@ def _work_states(task):
     for lines, states, final_st, final_out in task:
         exp = expectation(final_st, final_out)
         suffix = layout_suffix(lines)
-        for pos, cut, st, alt, out in states:
+        for count, (pos, cut, st, alt, out) in enumerate(states):
+            if count % 25 == 0:             # a grammar-written listing (each in turn) parsed complete in between
+                fnd, n = _prime()
+                res['nparse'] += n
+                if fnd and len(res['findings']) < 50:
+                    res['findings'].append((fnd[0], '/gram-' + fnd[2]['file'][len(GRAM):], fnd[1], fnd[2]))
             impl, chunks = run_model_case(lines, pos, cut, tmp, memo=True)
             res['nparse'] += impl['nparse']
             kind = lines[pos][0] if pos < len(lines) else 'eof'
             fnd, conforms = judge_model_case(impl, chunks, st, alt, out, exp, kind, cut, pos)
             res['n'] += 1
-            case = dict(source='model', lines=[list(x) for x in lines], pos=pos, cut=cut, expect=exp)
+            case = dict(source='model', lines=[list(x) for x in lines], pos=pos, cut=cut, expect=exp, after=list(_HISTORY))
             if fnd:
                 res['findings'].append((fnd[0], suffix, fnd[1], case))
             elif not conforms and len(res['drift']) < 2:
@@ -982,20 +1349,39 @@ def _pool():
 # replay
 
 def replay_case(case):
+    fnd, detail = _replay(case)
+    return fnd is None, detail + (' -- ' + fnd[1] if fnd else '')
+
+
+def _replay(case):
+    """-> (finding | None, detail).  `after` of the case: the grammar-written listings parsed complete, in this order,
+    between the parse of the complete listing (the reference) and the parse of the prefix."""
     signal.signal(signal.SIGALRM, _on_alarm)
+    after = list(case.get('after') or [])
+    said = ' after %s' % ', '.join(after) if after else ''
     if case['source'] == 'file':
         lst = _listing(case['file'])
         lst.memo = {}
         tmp = _tmp_path()
+        if after:                       # the reference first: every edition of the complete listing
+            full = open_listing(lst.path)[1]
+            for n in (full.batch_numbers() if full is not None else []):
+                lst.ref_edition(int(n))
+            for name in after:
+                _prime(name)
         with open(tmp, 'wb') as f:
             f.write(lst.data[:case['offset']])
         obs = lst.observe(tmp, case['offset'], ref=lst.ref_edition)
         fnd = finding_of(obs)
-        detail = 'offset %d of %s (inside a %r line, %s): outcome %s%s, editions %s' % (
-            case['offset'], case['file'], obs['full'][0], obs['cut'], obs['outcome'],
+        detail = 'offset %d of %s (inside a %r line, %s)%s: outcome %s%s, editions %s' % (
+            case['offset'], case['file'], obs['full'][0], obs['cut'], said, obs['outcome'],
             ' (%s from %s)' % (obs['exc'], obs['where']) if obs['exc'] else '', [(e['n'], e['ok']) for e in obs['eds']])
-        return fnd is None, detail + (' -- ' + fnd[1] if fnd else '')
+        return fnd, detail
     lines = [(k, n) for k, n in case['lines']]
+    if after:
+        run_model_case(lines, len(lines), 'none', _tmp_path())          # the reference (kept in _REF_CACHE) first
+        for name in after:
+            _prime(name)
     impl, chunks = run_model_case(lines, case['pos'], case['cut'], _tmp_path())
     kind = lines[case['pos']][0] if case['pos'] < len(lines) else 'eof'
     if case.get('expect'):          # TLC's scan of the complete listing, recorded with the case
@@ -1004,10 +1390,37 @@ def replay_case(case):
         obs = dict(outcome=impl['outcome'], exc=impl['exc'], where=impl['where'], diff=impl['diff'], full=(kind, None),
                    cut=case['cut'], keys=impl['keys'], eds=[])
         fnd = finding_of(obs)
-    detail = 'rendered listing %s cut at line %d (%s): outcome %s%s, editions parsed %s' % (
-        [k for k, _ in lines], case['pos'] + 1, case['cut'], impl['outcome'],
+    detail = 'rendered listing %s cut at line %d (%s)%s: outcome %s%s, editions parsed %s' % (
+        [k for k, _ in lines], case['pos'] + 1, case['cut'], said, impl['outcome'],
         ' (%s from %s)' % (impl['exc'], impl['where']) if impl['exc'] else '', impl['ok'])
-    return fnd is None, detail + (' -- ' + fnd[1] if fnd else '')
+    return fnd, detail
+
+
+def _replay_fresh(case):
+    """_replay in a process that has parsed nothing yet -> finding | None"""
+    with multiprocessing.get_context('fork').Pool(1, initializer=_init_worker, maxtasksperchild=1) as pool:
+        return pool.apply(_replay, (case,))[0]
+
+
+def minimise_history(key, case):
+    """The smallest history of grammar-written listings with which a fresh process reproduces finding `key` on `case`
+    -> (suffix of the key, case): none ('' - the finding does not need them), one of them, else all of them."""
+    after = list(case.get('after') or [])
+    if not after:
+        return '', case
+
+    def shows(hist):
+        trial = dict(case, after=hist)
+        fnd = _replay_fresh(trial)
+        return trial if fnd is not None and fnd[0] == key else None
+    trial = shows([])
+    if trial:
+        return '', trial
+    for name in reversed(after):
+        trial = shows([name])
+        if trial:
+            return '/after-' + name[len(GRAM):], trial
+    return '/after-grammar-listings', case
 
 
 # ----------------------------------------------------------------------------------------------
@@ -1077,8 +1490,11 @@ def run_c11(ctx):
     ctx.rule('spec->code: every state of T4Scan.tla (well-formed listing x prefix x cut class of the next line) rendered '
              'with lines of the example listings and parsed by parse.Parser; code->spec: byte-offset prefixes of the '
              'example listings (and of synthetic multi-edition parallel-job listings built from them, with per-edition '
-             '"number of batches used" counts that differ inside an edition and coincide across editions) '
-             'parsed by parse.Parser and validated by TLC against T4ScanTrace.tla. distinct_nontrivial '
+             '"number of batches used" counts that differ inside an edition and coincide across editions, and of listings '
+             'written from the grammar for the result layouts no example has) parsed by parse.Parser and validated by TLC '
+             'against T4ScanTrace.tla; between the prefixes, in the same long-lived processes, the complete listing and '
+             '(each in turn) the complete grammar-written listings are parsed, and every listing is parsed right after each '
+             'of them. distinct_nontrivial '
              'counts distinct (sequence of line kinds of the prefix, cut class, outcome, number of editions parsed) for '
              'rendered listings and distinct (listing, complete significant lines, unterminated line, observation) for '
              'real listings, excluding prefixes that end before the initialisation time.')
@@ -1088,6 +1504,7 @@ def run_c11(ctx):
     ctx.assume('rendered listings: an edition stored before the last one is re-parsed only when its block, times or the '
                'run flags differ from those of an earlier case of the same process; the last stored edition always is')
     ctx.assume('results of an edition = response lists (datasets, metadata) + batch-level data present in both parses')
+    ctx.assume('the listings written from the grammar are Tripoli-4 output only as far as grammar.py describes it')
     signal.signal(signal.SIGALRM, _on_alarm)
     wd = tlc.workdir('c11')
     _SCRATCH[:] = [wd]
@@ -1186,17 +1603,21 @@ def run_c11(ctx):
         n_shipped = len(files)
         # + synthetic listings of parallel jobs with 2-3 editions assembled from the shipped one-edition ones
         files += [(len(synth_bytes(rel)), rel) for rel in synth_names(synth_bases(), ctx.tier == 'quick')]
+        # + listings written from the grammar for the layouts no shipped listing has; every job also parses them complete,
+        # in turn, between the prefixes of its own listing
+        files += [(len(gram_bytes(rel)), rel) for rel in gram_names()]
         sizes = {rel: size for size, rel in files}
         for size, rel in files:
-            if size <= small_limit and not rel.startswith(SYNTH):
+            if size <= small_limit and not rel.startswith((SYNTH, GRAM)):
                 offs = list(range(0, size + 1))
             else:
-                budget = ctx.pick(150, 2500) if rel.startswith(SYNTH) else ctx.pick(120, 1500) if size < 600000 else ctx.pick(30, 200)
+                budget = (ctx.pick(150, 2500) if rel.startswith(SYNTH) else ctx.pick(50, 1500) if rel.startswith(GRAM)
+                          else ctx.pick(120, 1500) if size < 600000 else ctx.pick(30, 200))
                 offs = _interpreted_offsets(rel, random.Random(ctx.seed * 7919 + size), budget)
             nchunk = max(1, min(NPROC * 2, len(offs) // 1500 + 1))
             step = (len(offs) + nchunk - 1) // nchunk
             for k in range(0, len(offs), step):
-                jobs.append((rel, offs[k:k + step], ctx.seed * 1000003 + k, rate, 400, k == 0))
+                jobs.append((rel, offs[k:k + step], ctx.seed * 1000003 + k, rate, 400, k == 0, 100))
         jobs.sort(key=lambda j: -len(j[1]) * (1 + sizes[j[0]] // 20000))
         file_results = pool.map(_work_offsets, jobs, chunksize=1)
     _t('offsets of real listings parsed')
@@ -1249,7 +1670,15 @@ def run_c11(ctx):
         for h in r['history']:
             ctx.violation('C11/history/complete-listing-result-changed',
                           'complete listing %s parsed after truncated ones gives %s' % (r['rel'], h),
-                          dict(source='file', file=r['rel'], offset=h['after']), module='conf_t4scan')
+                          dict(source='file', file=r['rel'], offset=h['after'], after=h.get('primed', [])), module='conf_t4scan')
+        for key, what, case in r.get('primed', []):
+            pending.append((key, '/gram-' + case['file'][len(GRAM):], what, case))
+    rejected = [rel for rel in gram_names() if (per_file.get(rel) or {}).get('ref_obs') is not None
+                and per_file[rel]['ref_obs']['outcome'] != 'Other'
+                and not (per_file[rel]['ref_obs']['eds'] and all(e['ok'] for e in per_file[rel]['ref_obs']['eds']))]
+    if rejected:
+        ctx.drift('listings written from the grammar that the parser of this tree refuses with its own error (nothing is '
+                  'demanded of them): %s' % ', '.join(rejected))
     data, index = [], []
     n_amb = 0
     for rel in sorted(per_file):
@@ -1309,9 +1738,10 @@ def run_c11(ctx):
             if o['outcome'] == 'Other' and (fno, cid) not in bad:
                 raise tlc.MachineryError('T4ScanTrace accepted outcome Other (%s offset %d)' % (d['name'], o['off']))
             if fnd:
-                pending.append((fnd[0], '/para-editions-synth' if d['name'].startswith(SYNTH) else '',
+                pending.append((fnd[0], '/para-editions-synth' if d['name'].startswith(SYNTH) else
+                                '/gram-' + d['name'][len(GRAM):] if d['name'].startswith(GRAM) else '',
                                 fnd[1] + ' [%s offset %d]' % (d['name'], o['off']),
-                                dict(source='file', file=d['name'], offset=o['off'])))
+                                dict(source='file', file=d['name'], offset=o['off'], after=o.get('after', []))))
             elif (fno, cid) in drift and fno not in nofinal and shown < 8:
                 shown += 1
                 ctx.drift('%s offset %d: observation is neither T4Scan with the unterminated line dropped nor interpreted: %s'
@@ -1320,9 +1750,18 @@ def run_c11(ctx):
                 ctx.distinct(('file', d['name'], o['pos'], json.dumps(o['part']), o['outcome'], json.dumps(o['eds'])))
     # the layout suffix (a listing layout of parallel jobs, a synthetic multi-edition listing) is part of the key only
     # when the finding class shows on those layouts alone: it then names what is needed to expose it
+    # the same for the history (grammar-written listings parsed complete earlier in the process): the first case of every
+    # finding class is replayed in fresh processes without them, then after each one of them
     plain_keys = set(k for k, suffix, _, _ in pending if not suffix)
+    minimal = {}
     for key, suffix, what, case in pending:
-        ctx.violation(key if key in plain_keys else key + suffix, what, case, module='conf_t4scan')
+        full_key = key if key in plain_keys else key + suffix
+        if full_key not in minimal:
+            minimal[full_key] = minimise_history(key, case) if len(minimal) < 12 else ('/after-grammar-listings', case)
+            case = minimal[full_key][1]
+        if minimal[full_key][0] and case.get('after'):
+            what += ' -- after %s was parsed in the same process' % ', '.join(case['after'])
+        ctx.violation(full_key + minimal[full_key][0], what, case, module='conf_t4scan')
     n_prefixes = sum(pf['n'] for pf in per_file.values())
     ctx.count(evaluations=sum(pf['nparse'] for pf in per_file.values()), traces=n_prefixes)
     if n_amb:
@@ -1339,7 +1778,9 @@ def run_c11(ctx):
         % (n_states, n_prefixes, len(per_file), sum(1 for s, r in files if s <= small_limit and not r.startswith(SYNTH)),
            small_limit, n_cases, len(bad))
         + ' %d of the listings are synthetic parallel-job listings with 2-3 editions (per-edition "number of batches '
-          'used" counts uniform / last block discarding / seeded).' % (len(files) - n_shipped))
+          'used" counts uniform / last block discarding / seeded), %d are written from the grammar (%s) and also parsed '
+          'complete between the prefixes of every listing.'
+        % (len(files) - n_shipped - len(gram_names()), len(gram_names()), ', '.join(LAYOUTS)))
 
 
 def _final_from(by_full, full, s):
